@@ -364,7 +364,8 @@ def _overlay(pkgs):
             with open(out, "w") as fh:
                 fh.write(body)
         repl[os.path.join(dst, "zz_verif_kit_test.go")] = out
-    path = os.path.join(gen, "overlay-%s.json" % "-".join(sorted(pkgs)))
+    alt = "" if REPO == "/repo" else "-" + hashlib.sha1(REPO.encode()).hexdigest()[:8]
+    path = os.path.join(gen, "overlay-%s%s.json" % ("-".join(sorted(pkgs)), alt))
     body = json.dumps({"Replace": repl}, indent=1)
     if not os.path.exists(path) or open(path).read() != body:
         with open(path, "w") as fh:
@@ -387,7 +388,9 @@ def go_build(ctx, pk, race=False, tags="verif"):
     ov = _overlay([pk])
     bindir = os.path.join(BUILD, "bin")
     os.makedirs(bindir, exist_ok=True)
-    final = os.path.join(bindir, "%s%s.test" % (pk, "-race" if race else ""))
+    # a check pointed at another tree (VERIF_REPO) must never share a binary with one running on /repo
+    alt = "" if REPO == "/repo" else "-" + hashlib.sha1(REPO.encode()).hexdigest()[:8]
+    final = os.path.join(bindir, "%s%s%s.test" % (pk, "-race" if race else "", alt))
     tmp = final + ".%d" % os.getpid()
     pkgpath = "./" + pkgdir(pk) if pkgdir(pk) != "." else "."
     cmd = ["go", "test", "-c", "-vet=off", "-tags", tags, "-overlay", ov, "-o", tmp]
